@@ -260,6 +260,13 @@ def g_points(ctx, rng, i):
     ts = [PARAMS[k] for k in rng.choice(len(PARAMS), size=4, replace=False)]
     P = [g.Point(_on_line(a, b, t) * gen.pick(rng, [1, -1, 2])) for t in ts]
     v0 = _try(g.crossratio, *P)
+    # mixed dtypes per argument (the value depends on the points only): integer a, d with a float / complex non-integer representative of b, c and vice versa
+    f1, f2 = [(0.5, 1.5), (0.25, 1), (0.5 + 0j, 1), (1j, 0.5), (1, 0.75)][i % 5]
+    Pm = [P[0], g.Point(P[1].array * f1), g.Point(P[2].array * f2), P[3]]
+    _try(g.crossratio, *Pm)
+    _try(g.crossratio, Pm[1], Pm[0], Pm[3], Pm[2])
+    if n == 3:
+        _try(g.crossratio, *Pm, g.Point(gen.nonzero_vec(rng, 3, 4)))
     if v0 is not None and np.isfinite(v0) and abs(v0) > 1e-9 and abs(v0 - 1) > 1e-9:
         v0 = complex(v0)
         # the five symmetry identities on recorded values
